@@ -155,6 +155,8 @@ func c04Gen(rt *rapid.T) wProg {
 	p.Cfg = wConfig{Users: 4, NoPush: true}
 	p.Sess = append([]int(nil), c04Pick(rt, c04Layouts, "layout")...)
 	isChan := c04Pct(rt, 35)
+	// user 0 logged in at root level: some of its history queries are made on behalf of another user
+	p.Cfg.Root = c04Pct(rt, 25)
 	reader := map[int]bool{}
 	if isChan {
 		reader[2] = c04Pct(rt, 65)
@@ -329,9 +331,19 @@ func c04Gen(rt *rapid.T) wProg {
 			if op.T == "c0" && c04Pct(rt, 5) {
 				op.T = "g0" // a channel reader spelling the topic as grpXXX
 			}
+			if p.Cfg.Root && p.Sess[s] == 0 && op.T == "g0" && c04Pct(rt, 50) {
+				if u := c04Int(rt, 1, 3, "obo"); !reader[u] {
+					op.Obo = u + 1
+				}
+			}
 			p.Ops = append(p.Ops, op)
 		case x < 61:
 			op := wOp{K: "get", S: s, T: ref, A: "del"}
+			if p.Cfg.Root && p.Sess[s] == 0 && op.T == "g0" && c04Pct(rt, 40) {
+				if u := c04Int(rt, 1, 3, "obo"); !reader[u] {
+					op.Obo = u + 1
+				}
+			}
 			if c04Pct(rt, 30) {
 				op.N = c04Pick(rt, []int{0, 0, 1, 2, 3, 50}, "dsince")
 				op.M = c04Pick(rt, []int{0, 0, 2, 3, 4, 50}, "dbefore")
@@ -644,7 +656,7 @@ func (o *c04Obs) After(w *wWorld, st *wStep) *kit.Viol {
 			tp.reinvited = map[int]bool{}
 		}
 	}
-	if !st.Skipped && st.User >= 0 && st.Op.Obo == 0 {
+	if !st.Skipped && st.User >= 0 && (st.Op.Obo == 0 || st.Op.K == "get") {
 		switch st.Op.K {
 		case "pub":
 			o.learnPub(w, st)
@@ -857,6 +869,10 @@ func (o *c04Obs) judgeGetData(w *wWorld, st *wStep) *kit.Viol {
 		pfx = "chan-reader-addressing:"
 	}
 	u := at.User
+	if st.Op.Obo > 0 {
+		u = st.User // a root session asking on behalf of another user gets that user's view
+		o.classes["get-on-behalf"] = true
+	}
 	if tp.reinvited[u] {
 		pfx = "p2p-reinvited:"
 	}
@@ -1014,6 +1030,10 @@ func (o *c04Obs) judgeGetDel(w *wWorld, st *wStep) *kit.Viol {
 		pfx = "chan-reader-addressing:"
 	}
 	u := at.User
+	if st.Op.Obo > 0 {
+		u = st.User
+		o.classes["get-on-behalf"] = true
+	}
 	if tp.reinvited[u] {
 		pfx = "p2p-reinvited:"
 	}
